@@ -328,7 +328,7 @@ func simLine(n int, powers []int64, byz []bool, seed int64, steps, heights int, 
 
 func (P) Generate(g *hx.Gen) {
 	profs := []string{"sync", "async", "async", "lossy", "byz", "byz", "byz", "late", "late"}
-	total := g.Pick(60, 1500)
+	total := g.Pick(60, 1200) // thorough: 1200 simulations (27 min measured for 1500 with the step-level trace on a loaded machine)
 	scripted := g.Pick(4, 40)
 	for k := 0; k < total; k++ {
 		prof := profs[g.Rng.Intn(len(profs))]
@@ -363,6 +363,9 @@ func (P) Generate(g *hx.Gen) {
 				g.Count("ns-ev:" + te.Kind())
 				if k > 0 {
 					g.Count("ns-trans:" + csim.Transition(tr[k-1], te))
+					if csim.FutureTimeout(tr[k-1], te) {
+						g.Count("ns-timeout-for-a-future-round(WellTimed-violated)")
+					}
 					if csim.OldPrevoteWhileLocked(tr[k-1], te) {
 						g.Count("ns-prevote-of-round<=lockedRound-while-locked-in-later-round")
 					}
